@@ -8,6 +8,7 @@
   arbitrary folding function `lower`.
 -/
 import Upnp.Lemmas.C16Obs
+import Upnp.Lemmas.C16Heap
 namespace Upnp.C16
 open Upnp PyDict CIDict
 variable {κ ν : Type} [DecidableEq κ] (lower : κ → κ)
@@ -208,6 +209,137 @@ theorem last_write_wins (ops : List (Op κ ν)) (hw : ∀ op ∈ ops, WF lower o
   · rw [lookup_spec lower hs]; unfold SMap.lookup; rw [e, hget]; rfl
   · have hp := (iter_spec lower hs).1
     exact hp.mem_iff.mpr (List.mem_map.mpr ⟨_, mem_of_get? hget, rfl⟩)
+
+/-! ### The inherited mutators -/
+
+/-- `pop(key)` returns the abstract map's value (or raises exactly when it has none) and removes the name -/
+theorem pop_spec {d : CIDict κ ν} {m : SMap κ ν} (h : Sim lower d m) (k : κ) :
+    (popM lower d k).1 = (popS lower m k).1 ∧ Sim lower (popM lower d k).2 (popS lower m k).2 := by
+  unfold popM popS
+  rw [lookup_spec lower h k]
+  cases hl : SMap.lookup lower m k with
+  | none => exact ⟨rfl, h⟩
+  | some v =>
+    refine ⟨rfl, ?_⟩
+    simp only [delitem]
+    cases e : delLower d (lower k) with
+    | some d' => exact sim_delLower lower h _ e
+    | none => simpa using delLower_none_remove lower h _ e
+
+/-- `setdefault(key, default)` returns the stored value if there is one, else stores and returns the default -/
+theorem setdefault_spec {d : CIDict κ ν} {m : SMap κ ν} (h : Sim lower d m) (k : κ) (v : ν) :
+    (setdefaultM lower d k v).1 = (setdefaultS lower m k v).1 ∧
+      Sim lower (setdefaultM lower d k v).2 (setdefaultS lower m k v).2 := by
+  unfold setdefaultM setdefaultS
+  rw [lookup_spec lower h k]
+  cases SMap.lookup lower m k with
+  | none => exact ⟨rfl, sim_set lower h k v⟩
+  | some x => exact ⟨rfl, h⟩
+
+/-- `update(mapping)` is the mapping's items written in order -/
+theorem update_spec {d : CIDict κ ν} {m : SMap κ ν} (h : Sim lower d m) (l : List (κ × ν)) :
+    Sim lower (updateM lower d l) (updateS lower m l) := by
+  unfold updateM updateS SMap.writeAll
+  induction l generalizing d m with
+  | nil => simpa using h
+  | cons p r ih => simp only [List.foldl_cons]; exact ih (sim_set lower h p.1 p.2)
+
+/-- `==` after any history (clause "equality with plain maps and other header maps"): for all operation
+    sequences and any two registers, the model's `==` is the abstract maps' equality -/
+theorem eq_history [DecidableEq ν] (ops : List (Op κ ν)) (hw : ∀ op ∈ ops, WF lower op) (r r' : Nat) :
+    eqCI lower (ops.foldl (stepM lower) (fun _ => CIDict.empty) r) (ops.foldl (stepM lower) (fun _ => CIDict.empty) r')
+      = smapEq (ops.foldl (stepS lower) (fun _ => []) r) (ops.foldl (stepS lower) (fun _ => []) r') :=
+  eq_spec lower (c16_history lower ops hw r) (c16_history lower ops hw r')
+
+/-! ### Object identity: copies and combinations are independent of their sources
+
+The machine of `Model/C16Heap.lean` runs the operations on VARIABLES: an object owns a cell (its
+pair of dicts), `replace(other)` makes the target share the other object's cell, every constructor,
+`copy`, `combine`, `combine_lower_dict` and `replace(plain mapping)` allocate a fresh cell, and the
+in-place mutators write through the handle.  The driver runs exactly `hstep (stepM lower)` and
+`hstep (stepS lower)`. -/
+
+/-- well-formed variable-level operation (pre-lowered keys for `combine_lower_dict`) -/
+def HWF : HOp κ ν → Prop
+  | .combineLower _ _ l => ∀ p ∈ l, lower p.1 = p.1
+  | _ => True
+
+/-- Under any history of operations on variables — sharing through `replace(other)` included — the
+    model and the abstract map use the same handle table and every cell stays in simulation: every
+    variable always denotes a header map that behaves as the abstract map it denotes on the spec side. -/
+theorem c16_object_history (ops : List (HOp κ ν)) (hw : ∀ op ∈ ops, HWF lower op) :
+    let m := hrun (stepM lower) (hinit CIDict.empty) ops
+    let sp := hrun (stepS lower) (hinit ([] : SMap κ ν)) ops
+    m.handle = sp.handle ∧ m.next = sp.next ∧ ∀ c, Sim lower (m.cells c) (sp.cells c) := by
+  suffices H : ∀ (m : HSt (CIDict κ ν)) (sp : HSt (SMap κ ν)), m.handle = sp.handle → m.next = sp.next →
+      (∀ c, Sim lower (m.cells c) (sp.cells c)) →
+      (hrun (stepM lower) m ops).handle = (hrun (stepS lower) sp ops).handle ∧
+      (hrun (stepM lower) m ops).next = (hrun (stepS lower) sp ops).next ∧
+      ∀ c, Sim lower ((hrun (stepM lower) m ops).cells c) ((hrun (stepS lower) sp ops).cells c) from
+    H _ _ rfl rfl (fun _ => sim_empty lower)
+  induction ops with
+  | nil => intro m sp hh hn hs; exact ⟨hh, hn, hs⟩
+  | cons op r ih =>
+    intro m sp hh hn hs
+    simp only [hrun, List.foldl_cons]
+    have hwop := hw op List.mem_cons_self
+    obtain ⟨hh', hn'⟩ := hstep_handle_indep (stepM lower) (stepS lower) m sp op hh hn
+    refine ih (fun o ho => hw o (List.mem_cons_of_mem _ ho)) _ _ hh' hn' ?_
+    cases op with
+    | newDict v l => simp only [hstep, hn]; exact step_sim lower _ _ (.newDict _ l) trivial hs
+    | newCI v a => simp only [hstep, hn, hh]; exact step_sim lower _ _ (.newCI _ _) trivial hs
+    | set v k x => simp only [hstep, hh]; exact step_sim lower _ _ (.set _ k x) trivial hs
+    | del v k => simp only [hstep, hh]; exact step_sim lower _ _ (.del _ k) trivial hs
+    | delLower v lk => simp only [hstep, hh]; exact step_sim lower _ _ (.delLower _ lk) trivial hs
+    | copy v a => simp only [hstep, hn, hh]; exact step_sim lower _ _ (.copy _ _) trivial hs
+    | combine v a b => simp only [hstep, hn, hh]; exact step_sim lower _ _ (.combine _ _ _) trivial hs
+    | combineLower v a l => simp only [hstep, hn, hh]; exact step_sim lower _ _ (.combineLower _ _ l) hwop hs
+    | replaceDict v l => simp only [hstep, hn]; exact step_sim lower _ _ (.replaceDict _ l) trivial hs
+    | replaceCI v a => simp only [hstep]; exact hs
+
+/-- **Copies and combinations are independent of their sources.**  Right after an operation that
+    builds a header map (any constructor, `copy`, `combine`, `combine_lower_dict`, `replace` with a
+    plain mapping), the new map `v` keeps exactly its content through ANY later operations on other
+    variables — mutation, deletion, rebinding or replacement of its sources included — as long as
+    nobody asks to share it (`x.replace(v)`, the documented sharing). -/
+theorem copy_independent (s : HSt (CIDict κ ν)) (hfr : Fresh s) (op : HOp κ ν) (ha : op.allocates = true)
+    (later : List (HOp κ ν)) (hl : ∀ o ∈ later, o.target ≠ op.target ∧ o.linksTo op.target = false) :
+    (hrun (stepM lower) (hstep (stepM lower) s op) later).val op.target
+      = (hstep (stepM lower) s op).val op.target :=
+  (private_run (stepM lower) (stepM_frame lower) op.target later _ (fresh_step _ s op hfr)
+    (alloc_private (stepM lower) s op hfr ha) hl).1
+
+/-- … and the other way round: what is done to the copy never reaches a source that is not shared. -/
+theorem source_independent (s : HSt (CIDict κ ν)) (hfr : Fresh s) (a : Nat) (hp : Private s a) (op : HOp κ ν)
+    (hta : op.target ≠ a) (hla : op.linksTo a = false)
+    (later : List (HOp κ ν)) (hl : ∀ o ∈ later, o.target ≠ a ∧ o.linksTo a = false) :
+    (hrun (stepM lower) (hstep (stepM lower) s op) later).val a = s.val a := by
+  obtain ⟨hp', hh, hc⟩ := private_step (stepM lower) (stepM_frame lower) s a op hfr hp hta hla
+  have := (private_run (stepM lower) (stepM_frame lower) a later _ (fresh_step _ s op hfr) hp' hl).1
+  rw [this]; simp only [HSt.val, hh, hc]
+
+/-- `replace(other)` shares: afterwards both variables denote the same cell, so a write through
+    either is seen through both (the code's documented behaviour, "without making a copy") -/
+theorem replace_shares (s : HSt (CIDict κ ν)) (v a : Nat) (k : κ) (x : ν) :
+    let s1 := hstep (stepM lower) s (.replaceCI v a)
+    let s2 := hstep (stepM lower) s1 (.set a k x)
+    s2.val v = s2.val a := by
+  simp [hstep, HSt.val, upd]
+
+/-- non-vacuity for the object-level theorems: a copy survives the mutation, rebinding and
+    replacement of its source (numbers as keys, folded name `k / 10 * 10`) -/
+example :
+    let lower : Nat → Nat := fun k => k / 10 * 10
+    let s0 := hrun (stepM lower) (hinit (CIDict.empty : CIDict Nat Int)) [.newDict 0 [(11, 1), (20, 2)]]
+    let later : List (HOp Nat Int) := [.set 0 12 5, .del 0 20, .replaceDict 0 [(30, 3)], .newDict 2 [(11, 9)], .replaceCI 0 2]
+    Fresh s0 ∧ (∀ o ∈ later, o.target ≠ 1 ∧ o.linksTo 1 = false) ∧
+    CIDict.iter ((hrun (stepM lower) (hstep (stepM lower) s0 (.copy 1 0)) later).val 1) = [11, 20] ∧
+    CIDict.iter ((hrun (stepM lower) (hstep (stepM lower) s0 (.copy 1 0)) later).val 0) = [11] := by
+  refine ⟨?_, ?_, by decide, by decide⟩
+  · simp only [hrun, List.foldl_cons, List.foldl_nil]; exact fresh_step _ _ _ (fresh_init _)
+  · intro o ho
+    simp only [List.mem_cons, List.not_mem_nil, or_false] at ho
+    rcases ho with rfl | rfl | rfl | rfl | rfl <;> simp [HOp.target, HOp.linksTo]
 
 /-- non-vacuity: a concrete history with several spellings of one name (keys are numbers, the
     folded name of `k` is `k / 10 * 10`, so 11, 12, 13 are spellings of 10) reaches a state where
